@@ -47,3 +47,4 @@ finally:
     subprocess.run(['/venv/bin/python', os.path.join(ROOT, 'tools', 'pysrc2lean_cfg.py'), '/repo', os.path.join(ROOT, 'lean', 'UbxModel', 'Gen', 'SrcCfg.lean')], capture_output=True)
     subprocess.run(['/venv/bin/python', os.path.join(ROOT, 'tools', 'pysrc2lean_types.py'), '/repo', os.path.join(ROOT, 'lean', 'UbxModel', 'Gen', 'SrcTypes.lean')], capture_output=True)
     subprocess.run(['/venv/bin/python', os.path.join(ROOT, 'tools', 'pysrc2lean_tty.py'), '/repo', os.path.join(ROOT, 'lean', 'UbxModel', 'Gen', 'SrcTty.lean')], capture_output=True)
+    subprocess.run(['/venv/bin/python', os.path.join(ROOT, 'tools', 'pysrc2lean_helpers.py'), '/repo', os.path.join(ROOT, 'lean', 'UbxModel', 'Gen', 'SrcHelpers.lean')], capture_output=True)
